@@ -4,7 +4,31 @@ const compA = "real: wal (wal.go, state.go, codec.go, options.go), segment (writ
 	"stub: fs.FS -> simulated disk (volatile/durable images, dirty ranges, pending directory ops), metadb.BoltMetaDB -> simulated atomic metadata store (JSON round trip like metadb); " +
 	"scheduler: real goroutines, one runnable at a time, chosen from the tape at every seam call and verifhook point"
 
+const crashRule = "each run = a seeded workload (6-36 API calls: appends with rotation at segment sizes 64B-64KiB, head/tail/full truncations, stable sets, clean reopens, yield/quiesce windows for the background rotation) with 1-4 crashes, " +
+	"each addressed to the k-th (mutating) seam call - optionally of a given kind: WriteAt, Sync, CommitState, Create, Delete, SetStable - inside one operation's window (which includes the background rotation and, nested to depth 3, the recovery Open), " +
+	"landing before / after / in the middle of the call; kind = process crash (volatile image kept) or power loss (every un-fsynced granule of 8/64/512/4096 bytes, the file length and every pending directory entry independently kept or lost, subset drawn from structured patterns). " +
+	"After every crash the WAL is reopened and FirstIndex/LastIndex/full read-back must equal the definite operations applied in order with each in-flight operation applied in full or not at all; the run ends with one more clean reopen. " +
+	"A case is non-trivial if at least one crash fired; distinct = distinct sets of (crash kind, seam kind, before/after/mid, task that crashed, op kind in whose window, torn-pattern class, recovered-state class, number of candidate states)."
+
+func crashSpec(id string, extra string, probes []string) *PropSpec {
+	return &PropSpec{
+		ID:          id,
+		Rule:        crashRule + extra,
+		Components:  compA,
+		Assumptions: []string{"the simulated disk models exactly the durability contract of fs/ (file fsync makes that inode's data+length durable; directory entries become durable at the first Sync of a handle or at Delete) - shown by the C07 checks", "bbolt commits are atomic and durable on return (dependency, trusted); the metadata store survives every crash as committed", "torn writes are modelled at >= 8-byte granularity without garbling (README assumption)"},
+		RequiredProbes: probes,
+		RequiredFired:  []string{"crash", "power", "torn_blocks_lost", "torn_blocks_kept", "dirops_lost"},
+		QuickS:         50, ThoroughS: 900,
+	}
+}
+
 func init() {
+	propSpecs["C01"] = crashSpec("C01", "", []string{"recoveries"})
+	propSpecs["C02"] = crashSpec("C02", " C02 emphasis: 90% power losses, 8-byte granules, large segments so that repeated crash/recover/append cycles hit the same tail file and stale frames of earlier torn batches lie behind the new tail (probe stale_bytes_behind).", []string{"recoveries"})
+	propSpecs["C02"].RequiredFired = append(propSpecs["C02"].RequiredFired, "stale_bytes_behind", "files_torn")
+	propSpecs["C03"] = crashSpec("C03", " C03 adds after every recovery a usability script (append at Last+1, a second append, stable set, head and tail DeleteRange, clean Close/Open, all compared with the model); refusal of a legal call, a deadlock or a step-budget overrun is a violation.", []string{"recoveries", "usability_scripts"})
+	propSpecs["C04"] = crashSpec("C04", " C04 emphasis: crashes targeted at the seam calls inside DeleteRange (ForceSeal write/sync, CommitState, Create, finalizer Delete) and in the appends that re-use truncated indexes.", []string{"recoveries", "truncations"})
+	propSpecs["C13"] = crashSpec("C13", " C13 oracles: after every returned DeleteRange, every Open and at quiescent points the sorted directory listing equals the file names of the segments in committed metadata; every Create succeeds without colliding; a segment ID is bound to one BaseIndex for the lifetime of the directory; committed NextSegmentID never decreases and exceeds every ID ever created.", []string{"recoveries", "truncations"})
 	propSpecs["C05"] = &PropSpec{
 		ID: "C05",
 		Rule: "each run = a seeded program of 1-55 API calls (append incl. illegal batches, head/tail/all/middle/no-op DeleteRange, GetLog, stable ops, clean reopen, quiesce) over a swarm-drawn geometry " +
